@@ -20,7 +20,7 @@ def _sig_persists(prop, scn, seed, plans, signature):
 
 
 def _drop_task(scn, t):
-    if scn["tasks"][t].get("xg") or scn["tasks"][t].get("inc"):
+    if scn["tasks"][t].get("xg") or scn["tasks"][t].get("inc") or scn["tasks"][t].get("increl"):
         return None       # rendered together with other tasks / with the shared include
     s = copy.deepcopy(scn)
     for op in s["history"]:
@@ -112,7 +112,7 @@ def minimise(prop, doc, time_budget=60):
                     changed = True
         # 3b. drop edges
         for t in list(scn["tasks"]):
-            if scn["tasks"][t].get("xg") or scn["tasks"][t].get("inc"):
+            if scn["tasks"][t].get("xg") or scn["tasks"][t].get("inc") or scn["tasks"][t].get("increl"):
                 continue
             for d in list(scn["tasks"][t]["deps"]):
                 if not left():
